@@ -125,3 +125,93 @@ Proof.
   - intros j Hj. eexists. apply rd_nth. pose proof (scatter_index_lt _ _ _ Hj). unfold len in M. lia.
   - rewrite R in H. injection H as <-. split; [unfold len; lia|exact M].
 Qed.
+
+(** ** C12: the model against the specification of Enc/BssSpec.v (values as rows of [k] bytes) *)
+Local Close Scope N_scope.
+
+Lemma nth_concat_uniform {A} (d : A) k (rows : list (list A)) : Forall (fun r => length r = k) rows ->
+  forall i b, i < length rows -> b < k -> nth (i * k + b) (concat rows) d = nth b (nth i rows []) d.
+Proof.
+  intros H. induction H as [|r t Hr Ht IH]; intros i b Hi Hb; [cbn in Hi; lia|].
+  cbn [concat]. destruct i as [|i].
+  - cbn [Nat.mul Nat.add nth]. apply app_nth1. lia.
+  - cbn [nth]. rewrite app_nth2 by (rewrite Hr; lia). rewrite Hr.
+    replace (S i * k + b - k) with (i * k + b) by lia. apply IH; [cbn [length] in Hi; lia|exact Hb].
+Qed.
+
+Lemma concat_uniform_length {A} k (rows : list (list A)) : Forall (fun r => length r = k) rows ->
+  length (concat rows) = length rows * k.
+Proof. intros H. induction H as [|r t Hr _ IH]; [reflexivity|]. cbn [concat length]. rewrite app_length, IH, Hr. lia. Qed.
+
+Lemma map_nth_seq_gen {A} (d : A) (l : list A) : map (fun j => nth j l d) (seq 0 (length l)) = l.
+Proof.
+  induction l as [|x t IH] using rev_ind; [reflexivity|].
+  rewrite app_length. cbn [length]. rewrite Nat.add_1_r, seq_S, map_app. cbn [map Nat.add].
+  rewrite app_nth2, Nat.sub_diag by lia. cbn [nth]. f_equal.
+  rewrite <- IH at 2. apply map_ext_in. intros j Hj. apply in_seq in Hj. apply app_nth1. lia.
+Qed.
+
+Lemma concat_map_seq {A} (d : A) (row : nat -> list A) k n : (forall i, i < n -> length (row i) = k) ->
+  concat (map row (seq 0 n)) = map (fun j => nth (j mod k) (row (j / k)) d) (seq 0 (n * k)).
+Proof.
+  induction n; intros H; [reflexivity|].
+  rewrite seq_S, map_app, concat_app. cbn [map concat Nat.add]. rewrite app_nil_r.
+  replace (S n * k) with (n * k + k) by lia. rewrite seq_app, map_app. f_equal.
+  - apply IHn. intros i Hi. apply H. lia.
+  - cbn [Nat.add]. rewrite <- (map_nth_seq_gen d (row n)) at 1. rewrite (H n) by lia.
+    replace (n * k) with (0 + n * k) at 1 by lia. rewrite (map_seq_shift (fun j => nth (j mod k) (row (j / k)) d) 0 (n * k) k).
+    apply map_ext_in. intros i Hi. apply in_seq in Hi.
+    assert (k <> 0) by lia. rewrite Nat.mod_add, Nat.div_add by assumption.
+    rewrite Nat.mod_small, Nat.div_small by lia. reflexivity.
+Qed.
+
+Lemma nth_map_rows (vs : list (list N)) b i : i < length vs ->
+  nth i (map (fun v => nth b v 0%N) vs) 0%N = nth b (nth i vs []) 0%N.
+Proof.
+  intros H. rewrite (nth_indep _ 0%N ((fun v : list N => nth b v 0%N) [])) by (rewrite map_length; exact H).
+  apply (map_nth (fun v : list N => nth b v 0%N)).
+Qed.
+
+(** the model encoder writes exactly the K streams of the specification *)
+Theorem bss_encode_eq_spec k (vs : list (list N)) : Forall (fun v => length v = k) vs ->
+  bss_gather k (length vs) (concat vs) = Ok (spec_bss_enc k vs).
+Proof.
+  intros H. unfold bss_gather, spec_bss_enc. rewrite flat_map_concat_map.
+  rewrite (concat_map_seq 0%N (fun j => stream j vs) (length vs) k) by (intros; unfold stream; apply map_length).
+  apply collect_ok. intros j Hj.
+  assert (Hc : length vs <> 0) by (intros Q; rewrite Q in Hj; lia).
+  assert (H1 : j mod length vs < length vs) by (apply Nat.mod_upper_bound; exact Hc).
+  assert (H2 : j / length vs < k) by (apply Nat.div_lt_upper_bound; [exact Hc|lia]).
+  rewrite rd_nth by (rewrite (concat_uniform_length k vs H); nia).
+  rewrite (nth_concat_uniform 0%N k vs H) by assumption. unfold stream.
+  symmetry. f_equal. apply nth_map_rows. exact H1.
+Qed.
+
+Lemma streams_of_spec k count : forall data ss, streams_of k count data = Some ss ->
+  exists rest, data = concat ss ++ rest /\ Forall (fun s => length s = count) ss /\ length ss = k.
+Proof.
+  induction k; intros data ss H.
+  - cbn in H. injection H as <-. exists data. repeat split; constructor.
+  - cbn [streams_of] in H. destruct (take count data) as [[s r]|] eqn:T; [|discriminate].
+    destruct (streams_of k count r) as [ss'|] eqn:S; [|discriminate]. injection H as <-.
+    destruct (IHk _ _ S) as [rest [-> [F L]]]. destruct (take_spec _ _ _ _ T) as [-> Ls].
+    exists rest. cbn [concat length]. rewrite <- app_assoc. repeat split; [constructor; assumption|lia].
+Qed.
+
+(** the model decoder returns the values the specification decoder returns *)
+Theorem bss_decode_accepts k count data rows : spec_bss_dec k count data = Some rows ->
+  bss_scatter k count data = Ok (concat rows).
+Proof.
+  unfold spec_bss_dec. destruct (streams_of k count data) as [ss|] eqn:S; [|discriminate]. intros H. injection H as <-.
+  destruct (streams_of_spec _ _ _ _ S) as [rest [-> [F L]]].
+  rewrite (concat_map_seq 0%N (fun i => map (fun s => nth i s 0%N) ss) k count) by (intros; rewrite map_length; exact L).
+  unfold bss_scatter. apply collect_ok. intros j Hj.
+  assert (Hk : k <> 0) by (intros Q; rewrite Q in Hj; lia).
+  assert (H1 : j mod k < k) by (apply Nat.mod_upper_bound; exact Hk).
+  assert (H2 : j / k < count) by (apply Nat.div_lt_upper_bound; [exact Hk|lia]).
+  assert (Lc : length (concat ss) = k * count) by (rewrite (concat_uniform_length count ss F), L; reflexivity).
+  rewrite rd_nth by (rewrite app_length, Lc; nia).
+  rewrite app_nth1 by (rewrite Lc; nia).
+  rewrite (nth_concat_uniform 0%N count ss F) by (try rewrite L; assumption).
+  symmetry. f_equal. apply nth_map_rows. rewrite L. exact H1.
+Qed.
